@@ -462,3 +462,297 @@ Example C01_wrong_or_frames_rejected :
                               or_frames HeapExamples.sl0 (Some HeapExamples.sl0) rhs) 0 HeapExamples.st0 = Some r).
 Proof. exact HeapExamples.wrong_or_frames_rejected. Qed.
 Print Assumptions C01_history_example.
+
+(* 8. (wave 5) REFINEMENT, continued (Proofs/HeapRefine2.v): Apply with user functions, FilteredApply.
+      The heap level does not interpret cell values: a user function is a Call node answered by the callback
+      oracle [env] of the run (a pure function of the argument values).  The L0 model has function TABLES.
+      The link between the two is an explicit premise, stated row by row over the rows of the index
+      (link1 / link2 / link0): whenever the heap program reads the cell(s) of row p and calls fn on them, the L0
+      column has a cell at p, the table has an entry for it and the entry is the L0 reading [cv tout] of what the
+      oracle answers.  [dec_apply_ok dec]: the decoder gives a column the length of its first storage array, reads
+      an int / float / bool result array as the column of its values and reads the string encoding of
+      wrap_result (lengths or -1, byte blob) as the strings; dec_std does (C01_dec_std_apply_ok).
+      Conclusion (panic for panic): the heap run returns a well-formed reference whose abstraction is what
+      Ops.apply1 / apply2 / apply0 returns; it panics (an index entry beyond the column) iff the L0 model does. *)
+Require Import QF.Proofs.HeapRefine2.
+
+Theorem C01_dec_std_apply_ok : dec_apply_ok dec_std.
+Proof. exact dec_std_apply_ok. Qed.
+Print Assumptions C01_dec_std_apply_ok.
+
+Theorem C01_refines_apply1 env dec ut t n st qf f a src fn tin tout tbl :
+  dec_apply_ok dec ->
+  ref_ok dec st qf -> abs1 dec st qf = Some f -> store_fresh t n st ->
+  i_fn a = FnCall fn (ty_of tout) -> tout <> Frame.TEnum -> i_name_ok a = Ops.check_name (i_dst a) ->
+  (forall c d, map_get (map_of st (q_map qf)) src = Some c -> Frame.lookup_col f src = Some d ->
+               Frame.col_ftype d = tin /\ link1 env st c d fn tout tbl (Frame.ix f)) ->
+  exists res n' st',
+    run env t (apply1 a src qf) n st = (res, n', st') /\ keeps st st' /\ store_fresh t n' st' /\
+    match res with
+    | Ok qf' => ref_ok dec st' qf' /\
+                exists f', Ops.apply1 ut f (Ops.F1 tin tout tbl) (i_dst a) src = Ok f' /\ abs1 dec st' qf' = Some f'
+    | Panic => Ops.apply1 ut f (Ops.F1 tin tout tbl) (i_dst a) src = Panic
+    | Fail => False
+    end.
+Proof. exact (fun Hd => refines_apply1 env dec Hd ut t n st qf f a src fn tin tout tbl). Qed.
+Print Assumptions C01_refines_apply1.
+
+Theorem C01_refines_apply2 env dec t n st qf f a src1 src2 fn tout tbl :
+  dec_apply_ok dec ->
+  ref_ok dec st qf -> abs1 dec st qf = Some f -> store_fresh t n st ->
+  i_fn a = FnCall fn (ty_of tout) -> i_name_ok a = Ops.check_name (i_dst a) ->
+  (forall c1 c2 d1 d2,
+      map_get (map_of st (q_map qf)) src1 = Some c1 -> map_get (map_of st (q_map qf)) src2 = Some c2 ->
+      Frame.lookup_col f src1 = Some d1 -> Frame.lookup_col f src2 = Some d2 ->
+      Frame.col_type d1 = Frame.col_type d2 /\ Frame.col_ftype d1 = tout /\
+      link2 env st c1 c2 d1 d2 fn tout tbl (Frame.ix f)) ->
+  exists res n' st',
+    run env t (apply2 a src1 src2 qf) n st = (res, n', st') /\ keeps st st' /\ store_fresh t n' st' /\
+    match res with
+    | Ok qf' => ref_ok dec st' qf' /\
+                exists f', Ops.apply2 f (Ops.F2 tout tbl) (i_dst a) src1 src2 = Ok f' /\ abs1 dec st' qf' = Some f'
+    | Panic => Ops.apply2 f (Ops.F2 tout tbl) (i_dst a) src1 src2 = Panic
+    | Fail => False
+    end.
+Proof. exact (fun Hd => refines_apply2 env dec Hd t n st qf f a src1 src2 fn tout tbl). Qed.
+Print Assumptions C01_refines_apply2.
+
+(* func() T: the oracle of the heap run is a pure function of the (empty) argument list, so the theorem covers the
+   streams that repeat one value over the rows of the index (link0); a counting closure is WithRowNums, above *)
+Theorem C01_refines_apply0 env dec t n st qf f a fn tout vals :
+  dec_apply_ok dec ->
+  ref_ok dec st qf -> abs1 dec st qf = Some f -> store_fresh t n st ->
+  i_fn a = FnCall fn (ty_of tout) -> tout <> Frame.TEnum -> i_name_ok a = Ops.check_name (i_dst a) ->
+  link0 env fn tout vals (Frame.ix f) ->
+  exists res n' st',
+    run env t (apply0 a qf) n st = (res, n', st') /\ keeps st st' /\ store_fresh t n' st' /\
+    match res with
+    | Ok qf' => ref_ok dec st' qf' /\
+                exists f', Ops.apply0 f (Ops.F0Stream tout vals) (i_dst a) = Ok f' /\ abs1 dec st' qf' = Some f'
+    | Panic => Ops.apply0 f (Ops.F0Stream tout vals) (i_dst a) = Panic
+    | Fail => False
+    end.
+Proof. exact (fun Hd => refines_apply0 env dec Hd t n st qf f a fn tout vals). Qed.
+Print Assumptions C01_refines_apply0.
+
+Theorem C01_refines_apply0_colname env dec t n st qf f a src :
+  dec_apply_ok dec ->
+  ref_ok dec st qf -> abs1 dec st qf = Some f -> store_fresh t n st ->
+  i_fn a = FnColName src -> i_name_ok a = Ops.check_name (i_dst a) ->
+  exists qf' n' st',
+    run env t (apply0 a qf) n st = (Ok qf', n', st') /\ keeps st st' /\ store_fresh t n' st' /\
+    ref_ok dec st' qf' /\
+    exists f', Ops.apply0 f (Ops.F0ColName src) (i_dst a) = Ok f' /\ abs1 dec st' qf' = Some f'.
+Proof. exact (fun Hd => refines_apply0_colname env dec Hd t n st qf f a src). Qed.
+Print Assumptions C01_refines_apply0_colname.
+
+(* the premises hold for the example frame (callback: x + 1; table: its graph on the cells of column A) and
+   both sides, computed, agree *)
+Example C01_apply1_premises_hold :
+  i_fn ApplyExamples.a1 = FnCall 1%N (ty_of Frame.TInt) /\ Frame.TInt <> Frame.TEnum /\
+  i_name_ok ApplyExamples.a1 = Ops.check_name (i_dst ApplyExamples.a1) /\
+  (forall c d, map_get (map_of HeapExamples.st0 (q_map HeapExamples.qf0)) HeapExamples.nA = Some c ->
+               Frame.lookup_col RefineExamples.f0 HeapExamples.nA = Some d ->
+               Frame.col_ftype d = Frame.TInt /\
+               link1 HeapExamples.env0 HeapExamples.st0 c d 1%N Frame.TInt ApplyExamples.tblA (Frame.ix RefineExamples.f0)).
+Proof. exact ApplyExamples.apply1_premises. Qed.
+Example C01_apply2_premises_hold :
+  i_fn ApplyExamples.a2 = FnCall 1%N (ty_of Frame.TInt) /\ i_name_ok ApplyExamples.a2 = Ops.check_name (i_dst ApplyExamples.a2) /\
+  (forall c1 c2 d1 d2,
+      map_get (map_of HeapExamples.st0 (q_map HeapExamples.qf0)) HeapExamples.nA = Some c1 ->
+      map_get (map_of HeapExamples.st0 (q_map HeapExamples.qf0)) HeapExamples.nA = Some c2 ->
+      Frame.lookup_col RefineExamples.f0 HeapExamples.nA = Some d1 -> Frame.lookup_col RefineExamples.f0 HeapExamples.nA = Some d2 ->
+      Frame.col_type d1 = Frame.col_type d2 /\ Frame.col_ftype d1 = Frame.TInt /\
+      link2 HeapExamples.env0 HeapExamples.st0 c1 c2 d1 d2 1%N Frame.TInt ApplyExamples.tblAA (Frame.ix RefineExamples.f0)).
+Proof. exact ApplyExamples.apply2_premises. Qed.
+Example C01_apply0_premises_hold :
+  link0 HeapExamples.env0 1%N Frame.TInt (repeat (Frame.CInt 7) 4) (Frame.ix RefineExamples.f0).
+Proof. exact ApplyExamples.link0_example. Qed.
+Example C01_apply1_example :
+  let '(r, _, st') := run HeapExamples.env0 1 (apply1 ApplyExamples.a1 HeapExamples.nA HeapExamples.qf0) 0 HeapExamples.st0 in
+  match r with Ok q => option_map Ok (abs1 dec_std st' q) | _ => None end
+  = Some (Ops.apply1 [] RefineExamples.f0 (Ops.F1 Frame.TInt Frame.TInt ApplyExamples.tblA) [66%N] HeapExamples.nA).
+Proof. exact ApplyExamples.apply1_example. Qed.
+Example C01_apply1_value :
+  Ops.apply1 [] RefineExamples.f0 (Ops.F1 Frame.TInt Frame.TInt ApplyExamples.tblA) [66%N] HeapExamples.nA
+  = Ok (Frame.mkFrame [(HeapExamples.nA, ApplyExamples.dA); ([66%N], Frame.ICol [31; 11; 6; 21]%Z)] [0; 1; 3; 2] false).
+Proof. exact ApplyExamples.apply1_value. Qed.
+Example C01_apply2_example :
+  let '(r, _, st') := run HeapExamples.env0 1 (apply2 ApplyExamples.a2 HeapExamples.nA HeapExamples.nA HeapExamples.qf0) 0 HeapExamples.st0 in
+  match r with Ok q => option_map Ok (abs1 dec_std st' q) | _ => None end
+  = Some (Ops.apply2 RefineExamples.f0 (Ops.F2 Frame.TInt ApplyExamples.tblAA) [66%N] HeapExamples.nA HeapExamples.nA).
+Proof. exact ApplyExamples.apply2_example. Qed.
+Example C01_apply0_example :
+  let '(r, _, st') := run HeapExamples.env0 1 (apply0 ApplyExamples.a0 HeapExamples.qf0) 0 HeapExamples.st0 in
+  match r with Ok q => option_map Ok (abs1 dec_std st' q) | _ => None end
+  = Some (Ops.apply0 RefineExamples.f0 (Ops.F0Stream Frame.TInt (repeat (Frame.CInt 7) 4)) [66%N]).
+Proof. exact ApplyExamples.apply0_example. Qed.
+
+(* FilteredApply: `newQf := qf; newQf.index = filteredQf.index; Apply; newQf.index = qf.index` act on a struct
+   COPY (with_index at the heap level, with_ix at L0).  The theorem composes ANY refinement of the Filter step
+   with ANY refinement of the Apply step on the copy (premises in the shape of the conclusions of the theorems
+   about op_filter and apply0/1/2; C01_swap_index gives the well-formedness and abstraction of the copy the Apply
+   theorems need) into the refinement of FilteredApply against Ops.filtered_apply. *)
+Theorem C01_swap_index dec st qf fq f ff :
+  ref_ok dec st qf -> ref_ok dec st fq -> abs1 dec st qf = Some f -> abs1 dec st fq = Some ff ->
+  ref_ok dec st (with_index qf (q_idx fq)) /\
+  abs1 dec st (with_index qf (q_idx fq)) = Some (Frame.with_ix f (Frame.ix ff)).
+Proof. exact (swap_index dec st qf fq f ff). Qed.
+Print Assumptions C01_swap_index.
+
+Theorem C01_refines_filtered_apply env dec mt ut t n st qf f c cl instrs is rf n1 st1 :
+  ref_ok dec st qf -> abs1 dec st qf = Some f ->
+  run env t (op_filter c qf) n st = (rf, n1, st1) -> keeps st st1 ->
+  match rf with
+  | Ok fq => ref_ok dec st1 fq /\ exists ff, Filter.frame_filter mt f cl = Ok ff /\ abs1 dec st1 fq = Some ff
+  | Panic => Filter.frame_filter mt f cl = Panic
+  | Fail => False
+  end ->
+  (forall fq ff, rf = Ok fq -> abs1 dec st1 fq = Some ff -> q_err fq = false ->
+     exists ra n2 st2,
+       run env t (op_apply instrs (with_index qf (q_idx fq))) n1 st1 = (ra, n2, st2) /\ keeps st1 st2 /\
+       match ra with
+       | Ok nq => ref_ok dec st2 nq /\
+                  exists r, Ops.apply ut (Frame.with_ix f (Frame.ix ff)) is = Ok r /\ abs1 dec st2 nq = Some r
+       | Panic => Ops.apply ut (Frame.with_ix f (Frame.ix ff)) is = Panic
+       | Fail => False
+       end) ->
+  exists res n' st',
+    run env t (op_filtered_apply c instrs qf) n st = (res, n', st') /\ keeps st st' /\
+    match res with
+    | Ok q' => ref_ok dec st' q' /\
+               exists r, Ops.filtered_apply mt ut f cl is = Ok r /\ abs1 dec st' q' = Some r
+    | Panic => Ops.filtered_apply mt ut f cl is = Panic
+    | Fail => False
+    end.
+Proof. exact (refines_filtered_apply env dec mt ut t n st qf f c cl instrs is rf n1 st1). Qed.
+Print Assumptions C01_refines_filtered_apply.
+
+(* 9. (wave 5) QFrame.filter: the shared mask.  A leaf of the heap model carries its row-wise computation as
+      parameters (lf_pred / lf_pred_inv) or as a Call node (custom filter function = oracle); the L0 model has
+      the generated kernels.  THE LINK for one leaf (leaf_link) has a heap side (leaf_heap_ok: the leaf's
+      column(s) resolve in the by-name map, Column.Filter returns no error, no int->float promotion and no
+      inversion through a second mask are involved, and the value the kernel writes for physical row r is P (row r)
+      for the rows of the index) and an L0 side (l0_realised: on every sub-index of the rows the leaf step of
+      Model/Filter.v ORs P into the mask - FilterProofs.leaf_realised, proved for int columns in
+      FilterLeafProofs.int_leaf_realised).  Theorem: the bool mask is allocated, every leaf writes only the
+      entries that are still false (cf_loop: mask' = mask_or mask (map P index), the matcher buffer lives in
+      arrays the filter allocated itself), index.Filter builds the new index: the heap program computes
+      Filter.filter_leaves (panic for panic), for any struct copy whose index is a sub-index i0 of the rows. *)
+Theorem C01_refines_filter_leaves env dec mt t n st qf f i0 hls ls :
+  ref_ok dec st qf -> abs1 dec st qf = Some (Frame.with_ix f i0) -> incl i0 (Frame.ix f) ->
+  store_fresh t n st ->
+  Forall2 (leaf_link env mt st (q_map qf) f) hls ls ->
+  exists res n' st',
+    run env t (qf_filter hls qf) n st = (res, n', st') /\ keeps st st' /\ store_fresh t n' st' /\
+    match res with
+    | Ok qf' => ref_ok dec st' qf' /\
+                exists f', Filter.filter_leaves mt (Frame.with_ix f i0) ls = Ok f' /\ abs1 dec st' qf' = Some f'
+    | Panic => Filter.filter_leaves mt (Frame.with_ix f i0) ls = Panic
+    | Fail => False
+    end.
+Proof. exact (refines_filter_leaves env dec mt t n st qf f i0 hls ls). Qed.
+Print Assumptions C01_refines_filter_leaves.
+
+(* the heap-level kernel loop by itself: Column.Filter ORs the row values into the mask it is given *)
+Theorem C01_col_filter_mask env t st0 lb len ix c argc hl use_inv (P : Z -> bool) n st arr :
+  lf_bad hl = false -> lookup st0 lb = None -> in_bounds st0 ix -> s_len ix = len ->
+  parts_in_bounds st0 c -> (forall a, argc = Some a -> parts_in_bounds st0 a) ->
+  keeps st0 st -> store_fresh t n st -> lookup st lb = Some arr -> length arr = len ->
+  (forall i, In i (map as_z (seg_of st0 ix)) -> row_val env st0 hl use_inv c argc i = Ok (P i)) ->
+  exists n' st' arr',
+    run env t (col_filter hl use_inv c argc ix (mkSlice lb 0 len len)) n st = (Ok tt, n', st') /\
+    keeps st0 st' /\ store_fresh t n' st' /\ n <= n' /\ lookup st' lb = Some arr' /\ length arr' = len /\
+    map as_b arr' = FilterProofs.mask_or (map as_b arr) (map P (map as_z (seg_of st0 ix))).
+Proof. exact (col_filter_spec env t st0 lb len ix c argc hl use_inv P n st arr). Qed.
+Print Assumptions C01_col_filter_mask.
+
+(* Clause trees, PARTIAL: a leaf, Null, Not of a leaf (inverse flag toggled) and an Or of leaves only (the leaves
+   are batched into ONE call of QFrame.filter over the shared mask).  Missing: And chains, Or with non-leaf
+   members (flush + orFrames), Not of a non-leaf (not_index) - their index merges are refined
+   (C01_refines_or_frames / C01_refines_not_index) but the induction over the tree is not closed: it needs that
+   the indexes index.Filter / orFrames / Not return hold non-negative entries, which the existing loop lemmas do
+   not state. *)
+Definition C01_refines_clause_filter_full_statement : Prop :=
+  forall env dec mt t n st qf f c cl,
+    ref_ok dec st qf -> abs1 dec st qf = Some f -> store_fresh t n st ->
+    nonneg (seg_of st (q_idx qf)) ->
+    clause_rel env mt st (q_map qf) f c cl ->
+    exists res n' st',
+      run env t (op_filter c qf) n st = (res, n', st') /\ keeps st st' /\ store_fresh t n' st' /\
+      match res with
+      | Ok qf' => ref_ok dec st' qf' /\ exists f', Filter.frame_filter mt f cl = Ok f' /\ abs1 dec st' qf' = Some f'
+      | Panic => Filter.frame_filter mt f cl = Panic
+      | Fail => False
+      end.
+(* the proved fragment is an instance of the relation of the full statement *)
+Theorem C01_flat_rel_clause_rel env mt st m f c cl : flat_rel env mt st m f c cl -> clause_rel env mt st m f c cl.
+Proof. exact (flat_rel_clause_rel env mt st m f c cl). Qed.
+Print Assumptions C01_flat_rel_clause_rel.
+
+Theorem C01_refines_clause_filter_partial env dec mt t n st qf f c cl :
+  ref_ok dec st qf -> abs1 dec st qf = Some f -> store_fresh t n st ->
+  flat_rel env mt st (q_map qf) f c cl ->
+  exists res n' st',
+    run env t (op_filter c qf) n st = (res, n', st') /\ keeps st st' /\ store_fresh t n' st' /\
+    match res with
+    | Ok qf' => ref_ok dec st' qf' /\ exists f', Filter.frame_filter mt f cl = Ok f' /\ abs1 dec st' qf' = Some f'
+    | Panic => Filter.frame_filter mt f cl = Panic
+    | Fail => False
+    end.
+Proof. exact (refines_clause_filter_partial env dec mt t n st qf f c cl). Qed.
+Print Assumptions C01_refines_clause_filter_partial.
+
+(* the link holds for the example leaf "A < 25" (heap: lfA, L0: int_leaf A "<" 25 through the generated kernel
+   table), the relation holds for the leaf and for an Or of two leaves; both sides computed; FilteredApply
+   (Filter A < 25, then x+1 into B on the filtered rows, index restored) computed on both sides *)
+Example C01_leaf_link_holds :
+  leaf_link HeapExamples.env0 [] HeapExamples.st0 (q_map HeapExamples.qf0) RefineExamples.f0 HeapExamples.lfA FilterExamples.l0A /\
+  map FilterExamples.PA [0; 1; 2; 3] = [false; true; true; true].
+Proof. exact (conj FilterExamples.lfA_link FilterExamples.PA_values). Qed.
+Example C01_flat_rel_holds :
+  flat_rel HeapExamples.env0 [] HeapExamples.st0 (q_map HeapExamples.qf0) RefineExamples.f0
+           (CLeaf HeapExamples.lfA) (Filter.CLeaf FilterExamples.l0A) /\
+  flat_rel HeapExamples.env0 [] HeapExamples.st0 (q_map HeapExamples.qf0) RefineExamples.f0
+           (COr false (map CLeaf [HeapExamples.lfA; HeapExamples.lfA]))
+           (Filter.COr (map Filter.CLeaf [FilterExamples.l0A; FilterExamples.l0A])).
+Proof. exact FilterExamples.flat_rel_examples. Qed.
+Example C01_filter_example :
+  (let '(r, _, st') := run HeapExamples.env0 1 (op_filter (CLeaf HeapExamples.lfA) HeapExamples.qf0) 0 HeapExamples.st0 in
+   match r with Ok q => option_map Ok (abs1 dec_std st' q) | _ => None end)
+  = Some (Filter.frame_filter [] RefineExamples.f0 (Filter.CLeaf FilterExamples.l0A)) /\
+  Filter.frame_filter [] RefineExamples.f0 (Filter.CLeaf FilterExamples.l0A) = Ok (Frame.with_ix RefineExamples.f0 [1; 3; 2]).
+Proof. exact (conj FilterExamples.filter_example FilterExamples.filter_value). Qed.
+Example C01_filtered_apply_example :
+  (let '(r, _, st') := run HeapExamples.env0 1 (op_filtered_apply (CLeaf HeapExamples.lfA) [ApplyExamples.a1] HeapExamples.qf0) 0 HeapExamples.st0 in
+   match r with Ok q => option_map Ok (abs1 dec_std st' q) | _ => None end)
+  = Some (Ops.filtered_apply [] [] RefineExamples.f0 (Filter.CLeaf FilterExamples.l0A) [FilterExamples.i1]) /\
+  Ops.filtered_apply [] [] RefineExamples.f0 (Filter.CLeaf FilterExamples.l0A) [FilterExamples.i1]
+  = Ok (Frame.mkFrame [(HeapExamples.nA, ApplyExamples.dA); ([66%N], Frame.ICol [0; 11; 6; 21]%Z)] [0; 1; 3; 2] false).
+Proof. exact (conj FilterExamples.filtered_apply_example FilterExamples.filtered_apply_value). Qed.
+
+(* 10. (wave 5) Grouper.QFrames: a grouper reference read at L0 (abs_g: headers, key names, the group indexes stored
+       in g.indices, Err); the frames QFrames returns share headers, map and group index with the grouper and
+       read as Aggregate.qframes of it; Err -> error on both sides. *)
+Theorem C01_refines_qframes env dec t n st g G :
+  grouper_ok dec st g -> abs_g dec st g = Some G -> store_fresh t n st ->
+  exists res n' st',
+    run env t (op_qframes g) n st = (res, n', st') /\ keeps st st' /\ store_fresh t n' st' /\
+    match res with
+    | Ok qs => Forall (ref_ok dec st') qs /\
+               exists fs, Aggregate.qframes G = Ok fs /\ map (abs1 dec st') qs = map Some fs
+    | Fail => Aggregate.qframes G = Fail
+    | Panic => False
+    end.
+Proof. exact (refines_qframes env dec t n st g G). Qed.
+Print Assumptions C01_refines_qframes.
+Example C01_qframes_premises_hold :
+  grouper_ok dec_std AggExamples.st_g0 AggExamples.g0 /\
+  abs_g dec_std AggExamples.st_g0 AggExamples.g0 = Some QFramesExamples.G0 /\
+  store_fresh 3 0 AggExamples.st_g0.
+Proof. exact (conj QFramesExamples.grouper_ok_example (conj QFramesExamples.abs_g_example QFramesExamples.fresh3)). Qed.
+Example C01_qframes_example :
+  (let '(r, _, st') := run HeapExamples.env0 3 (op_qframes AggExamples.g0) 0 AggExamples.st_g0 in
+   match r with Ok qs => Some (map (abs1 dec_std st') qs) | _ => None end)
+  = match Aggregate.qframes QFramesExamples.G0 with Ok fs => Some (map Some fs) | _ => None end.
+Proof. exact QFramesExamples.qframes_example. Qed.
